@@ -428,8 +428,8 @@ package sftp
 //@ func (*File).readFromWithConcurrency$2
 //@   property C20, C01, C13
 //@   requires attr(errCh, lo) == attr(workCh, lo)
-//@   channel workCh invariant attr(ch, lo) <= m.off && m.res != nil
-//@   channel errCh invariant m.err != nil && attr(ch, lo) <= m.off
+//@   channel workCh invariant attr(ch, lo) <= m.off && m.off < math.MaxInt64 && m.res != nil
+//@   channel errCh invariant m.err != nil && attr(ch, lo) <= m.off && m.off < math.MaxInt64
 //@   channel errCh nodrop
 //@   loop 1 invariant attr(errCh, lo) == attr(workCh, lo)
 
@@ -599,7 +599,7 @@ package sftp
 
 //@ pred pmOK(m *packetManager) = m != nil && m.working != nil && m.sender != nil && (m.alloc == nil || m.alloc.used != nil)
 //@ pred filesOK(s *Server) = s.openFiles != nil && forall(k, string, haskey(s.openFiles, k) ==> s.openFiles[k] != nil)
-//@ pred serverOK(s *Server) = s != nil && s.serverConn != nil && (s.alloc == nil || s.alloc.used != nil) && s.pktMgr != nil && pmOK(s.pktMgr) && filesOK(s)
+//@ pred serverOK(s *Server) = s != nil && s.maxTxPacket <= 0x7fffffff && s.serverConn != nil && s.WriteCloser != nil && (s.alloc == nil || s.alloc.used != nil) && s.pktMgr != nil && pmOK(s.pktMgr) && filesOK(s)
 
 //@ func (file).ReadAt
 //@   trusted
@@ -918,8 +918,8 @@ package sftp
 //@   update after call makePacket#1: ghost.rxOK = ite(ret1 == nil || isErr(ret1, errUnknownExtendedPacket), ghost.rxOK + 1, ghost.rxOK)
 //@   update before send pktChan#1: ghost.fwd = ghost.fwd + 1
 // (every packet that decodes, or names an unknown extension, is forwarded to the workers exactly once: rxOK - fwd is constant)
-//@   requires rs != nil && rs.serverConn != nil && (rs.alloc == nil || rs.alloc.used != nil) && rs.Reader != nil && rs.pktMgr != nil && pmOK(rs.pktMgr)
-//@   loop 1 invariant rs != nil && rs.serverConn != nil && (rs.alloc == nil || rs.alloc.used != nil) && rs.Reader != nil && rs.pktMgr != nil && pmOK(rs.pktMgr)
+//@   requires rs != nil && rs.serverConn != nil && rs.WriteCloser != nil && (rs.alloc == nil || rs.alloc.used != nil) && rs.Reader != nil && rs.pktMgr != nil && pmOK(rs.pktMgr)
+//@   loop 1 invariant rs != nil && rs.serverConn != nil && rs.WriteCloser != nil && (rs.alloc == nil || rs.alloc.used != nil) && rs.Reader != nil && rs.pktMgr != nil && pmOK(rs.pktMgr)
 //@   assert before send pktChan#1: pkt != nil && (err == nil || isErr(err, errUnknownExtendedPacket))
 
 // ---------------------------------------------------------------------------
@@ -1079,7 +1079,7 @@ package sftp
 //@ pred rsReqType(p requestPacket) = reqType(p) || typeis(p, *sshFxpExtendedPacketStatVFS) || typeis(p, *sshFxpExtendedPacketPosixRename) || typeis(p, *sshFxpExtendedPacketHardlink)
 //@ pred handlersOK(h Handlers) = h.FileGet != nil && h.FilePut != nil && h.FileCmd != nil && h.FileList != nil
 //@ pred reqsOK(rs *RequestServer) = rs.openRequests != nil && forall(k, string, haskey(rs.openRequests, k) ==> rs.openRequests[k] != nil)
-//@ pred rsOK(rs *RequestServer) = rs != nil && rs.serverConn != nil && (rs.alloc == nil || rs.alloc.used != nil) && rs.pktMgr != nil && pmOK(rs.pktMgr) && handlersOK(rs.Handlers) && reqsOK(rs)
+//@ pred rsOK(rs *RequestServer) = rs != nil && rs.maxTxPacket <= 0x7fffffff && rs.serverConn != nil && rs.WriteCloser != nil && (rs.alloc == nil || rs.alloc.used != nil) && rs.pktMgr != nil && pmOK(rs.pktMgr) && handlersOK(rs.Handlers) && reqsOK(rs)
 //@ pred attrsOK(p requestPacket) = (typeis(p, *sshFxpOpenPacket) ==> typeis(p.(*sshFxpOpenPacket).Attrs, []byte)) && (typeis(p, *sshFxpSetstatPacket) ==> typeis(p.(*sshFxpSetstatPacket).Attrs, []byte)) && (typeis(p, *sshFxpFsetstatPacket) ==> typeis(p.(*sshFxpFsetstatPacket).Attrs, []byte))
 
 //@ func (ListerAt).ListAt
@@ -1193,25 +1193,25 @@ package sftp
 
 //@ func packetData
 //@   property C07, C01
-//@   requires alloc == nil || alloc.used != nil
+//@   requires (alloc == nil || alloc.used != nil) && maxTxPacket <= 0x7fffffff
 //@   ensures typeis(p, *sshFxpWritePacket) ==> data == p.(*sshFxpWritePacket).Data && offset == int64(p.(*sshFxpWritePacket).Offset)
 //@   ensures typeis(p, *sshFxpReadPacket) ==> offset == int64(p.(*sshFxpReadPacket).Offset)
 
 //@ func fileget
 //@   property C07, C02, C01
-//@   requires r != nil && pkt != nil && (alloc == nil || alloc.used != nil) && rsReqType(pkt)
+//@   requires r != nil && pkt != nil && (alloc == nil || alloc.used != nil) && rsReqType(pkt) && maxTxPacket <= 0x7fffffff
 //@   ensures result != nil && result.id() == pkt.id()
 //@   ensures typeis(result, *sshFxpDataPacket) || typeis(result, *sshFxpStatusPacket)
 
 //@ func fileput
 //@   property C07, C02, C01
-//@   requires r != nil && pkt != nil && (alloc == nil || alloc.used != nil) && rsReqType(pkt)
+//@   requires r != nil && pkt != nil && (alloc == nil || alloc.used != nil) && rsReqType(pkt) && maxTxPacket <= 0x7fffffff
 //@   ensures result != nil && result.id() == pkt.id()
 //@   ensures typeis(result, *sshFxpStatusPacket)
 
 //@ func fileputget
 //@   property C07, C02, C01
-//@   requires r != nil && pkt != nil && (alloc == nil || alloc.used != nil) && rsReqType(pkt)
+//@   requires r != nil && pkt != nil && (alloc == nil || alloc.used != nil) && rsReqType(pkt) && maxTxPacket <= 0x7fffffff
 //@   ensures result != nil && result.id() == pkt.id()
 //@   ensures typeis(result, *sshFxpDataPacket) || typeis(result, *sshFxpStatusPacket)
 
@@ -1248,7 +1248,7 @@ package sftp
 
 //@ func (*Request).call
 //@   property C07, C02, C10
-//@   requires r != nil && pkt != nil && handlersOK(handlers) && attrsOK(pkt) && (alloc == nil || alloc.used != nil) && rsReqType(pkt)
+//@   requires r != nil && pkt != nil && handlersOK(handlers) && attrsOK(pkt) && (alloc == nil || alloc.used != nil) && rsReqType(pkt) && maxTxPacket <= 0x7fffffff
 //@   requires MaxFilelist >= 1 && MaxFilelist <= 1000000
 //@   ensures result != nil && result.id() == pkt.id()
 //@   ensures typeis(result, *sshFxpStatusPacket) || typeis(result, *sshFxpDataPacket) || typeis(result, *sshFxpNamePacket) || typeis(result, *sshFxpStatResponse) || typeis(result, *StatVFS)
@@ -1571,3 +1571,128 @@ package sftp
 //@   requires fileOK(f)
 //@   ensures err == nil ==> fi != nil
 //@   ensures f.offset == old(f.offset) && f.handle == old(f.handle)
+
+//@ ghost var dOff int64
+
+//@ func (*File).readFromWithConcurrency
+//@   property C01, C12, C13
+//@   requires fileOK(f) && r != nil && f.offset >= 0 && f.offset <= 0x3fffffffffffffff
+//@   assume after make errCh#1: attr(ret, lo) == f.offset
+//@   assume after make workCh#1: attr(ret, lo) == f.offset
+//@   channel errCh invariant m.err != nil && attr(ch, lo) <= m.off && m.off < math.MaxInt64
+//@   update after make errCh#1: ghost.gmin = math.MaxInt64
+//@   loop 2 ghost gmin
+//@   update after recv errCh#1: ghost.gmin = ite(ret1, min(ghost.gmin, ret0.off), ghost.gmin)
+//@   loop 2 invariant firstErr.off == ghost.gmin && (firstErr.err == nil <==> ghost.gmin == math.MaxInt64)
+//@   loop 2 invariant firstErr.err != nil ==> old(f.offset) <= firstErr.off
+//@   loop 2 invariant attr(errCh, lo) == old(f.offset) && f.offset == old(f.offset) && f.handle == old(f.handle) && f != nil
+//@   ensures old(f.handle) == "" ==> err == os.ErrClosed && read == 0 && f.offset == old(f.offset)
+//@   ensures old(f.handle) != "" && err == nil ==> f.offset == old(f.offset) + read
+//@   ensures old(f.handle) != "" && err != nil ==> f.offset == ghost.gmin && f.offset >= old(f.offset)
+//@   ensures f.handle == old(f.handle)
+// (on success the offset advances by the bytes consumed from the source; on failure it marks the lowest failing
+//  offset, which is never below the starting offset)
+
+//@ func (*File).readFromWithConcurrency$1
+//@   property C01, C12, C13, C20
+//@   requires fileOK(f) && r != nil && f.offset >= 0 && f.offset <= 0x3fffffffffffffff
+//@   requires attr(workCh, lo) == f.offset && attr(errCh, lo) == f.offset
+//@   channel workCh invariant attr(ch, lo) <= m.off && m.off < math.MaxInt64 && m.res != nil
+//@   channel errCh invariant m.err != nil && attr(ch, lo) <= m.off && m.off < math.MaxInt64
+//@   channel errCh nodrop
+//@   loop 1 ghost dOff
+//@   loop 1 invariant fileOK(f) && r != nil && len(b) == f.c.maxPacket && off >= old(f.offset)
+//@   loop 1 assume off <= 0x3fffffffffffffff
+//@   loop 1 invariant attr(workCh, lo) == old(f.offset) && attr(errCh, lo) == old(f.offset)
+//@   assert before call io.ReadFull#1: arg1 == b
+//@   update before call (*clientConn).dispatchRequest#1: ghost.dOff = off
+//@   assert before call (*clientConn).dispatchRequest#1: arg2.(*sshFxpWritePacket).Offset == uint64(off) && uint64(arg2.(*sshFxpWritePacket).Length) == uint64(n) && arg2.(*sshFxpWritePacket).Data == b[:n] && arg2.(*sshFxpWritePacket).Handle == f.handle && arg2.(*sshFxpWritePacket).ID == id && arg1 == res
+//@   assert before send workCh#1: arg1.off == ghost.dOff && arg1.id == id && arg1.res == res
+
+//@ func (*sshFxpReadPacket).getDataSlice
+//@   property C07, C01, C18
+//@   requires alloc == nil || alloc.used != nil
+//@   requires maxTxPacket <= 0x7fffffff
+//@   ensures len(result) == int(min(p.Len, maxTxPacket))
+//@   ensures alloc == nil || min(p.Len, maxTxPacket) > maxMsgLength ==> cap(result) >= len(result) + dataHeaderLen
+// (with and without the allocator the handler sees a buffer of the same length: min(requested, max-tx-packet))
+
+// small helpers reached from the server loops: safety (no panic) only, plus the facts their callers need
+
+//@ pred stateOK(s *state) = s != nil
+
+//@ func (*state).getReaderAt
+//@   property C07, C11, C16
+
+//@ func (*state).getWriterAt
+//@   property C07, C11, C16
+
+//@ func (*state).getWriterAtReaderAt
+//@   property C07, C11, C16
+
+//@ func (*state).getListerAt
+//@   property C07, C11, C16
+
+//@ func (*state).getAllReaderWriters
+//@   property C07, C11, C16
+
+//@ func (*state).setReaderAt
+//@   property C07, C11, C16
+//@   modifies s.readerAt
+
+//@ func (*state).setWriterAt
+//@   property C07, C11, C16
+//@   modifies s.writerAt
+
+//@ func (*state).setWriterAtReaderAt
+//@   property C07, C11, C16
+//@   modifies s.writerAtReaderAt
+
+//@ func (*state).setListerAt
+//@   property C07, C11, C16
+//@   modifies s.listerAt
+
+//@ func (*state).lsNext
+//@   property C07, C11, C16
+//@   ensures result == s.lsoffset
+
+//@ func (*state).lsInc
+//@   property C07, C11, C16
+//@   ensures s.lsoffset == old(s.lsoffset) + offset
+//@   modifies s.lsoffset
+
+//@ func (*state).closeListerAt
+//@   property C07, C11, C16
+//@   modifies s.listerAt
+//@   assume-frame
+//@   ensures s.listerAt == nil
+
+//@ func translateSyscallError
+//@   property C07, C10, C05
+
+//@ func translateErrno
+//@   property C07, C10, C05
+
+//@ func wrapPathError
+//@   property C07, C10, C05
+
+//@ func cleanPathWithBase
+//@   property C07, C10, C05
+
+//@ func cleanPath
+//@   property C07, C10, C05
+
+//@ func (*Server).toLocalPath
+//@   property C07, C10, C05
+
+//@ func (*conn).Close
+//@   property C07, C04
+//@   requires c != nil && c.WriteCloser != nil
+
+//@ func (*clientConn).Close
+//@   property C07, C04
+//@   requires c != nil && c.WriteCloser != nil
+
+//@ func (*RequestServer).Close
+//@   property C07, C04
+//@   requires rs != nil && rs.serverConn != nil && rs.WriteCloser != nil
